@@ -15,3 +15,12 @@ fn(U + "filter_pseudo_headers", params={"headers": "hdrs"}, returns="hdrs", modi
               "invariant": [("filter.loop.first-is-host", "len(filtered_headers) >= 1")]}},
    ensures=[("C01.filter.host-first", "len(result) >= 1 and result[0][0] == b'host'", "C01")],
    props=("C01",))
+
+# Application-supplied header list -> validated list.  Callers see: either a list of (bytes, bytes)
+# pairs, or an exception raised into the application (before anything is emitted).
+# C12.headers is transcribed from the statement: CR, LF or NUL never reach the wire.
+fn(U + "build_and_validate_headers", params={"headers": "anyhdr"}, returns="hdrs", modifies=[], effect="atomic",
+   raises={"Exception": None},
+   loops={0: {"locals": {"name": "anyhdr", "value": "anyhdr"}}},
+   ensures=[("C12.headers.no-ctl", "no_ctl_chars(result)", "C12")],
+   props=("C12",))
